@@ -455,6 +455,40 @@ func ruleWritersCopyChunks(c *Ctx, rule, prefix string) int {
 			}
 		})
 		c.Check(bad == "", rule, "stream writer "+fname(f), f.Pos(), "chunks are copied (appended) into the writer's buffer", bad+" — a caller reusing its buffer (io.Copy does) corrupts the stored data")
+		// the buffer only grows while the stream is open: every other method of the writer that sets the
+		// buffer field appends to what is already there (a ReadFrom fast path that replaces it drops the
+		// bytes written before)
+		var bufField string
+		eachInstr(f, func(_ *ssa.BasicBlock, _ int, in ssa.Instruction) {
+			if st, ok := in.(*ssa.Store); ok {
+				if fa, ok := st.Addr.(*ssa.FieldAddr); ok && isByteSlice(derefType(fa.Type())) && fa.X == ssa.Value(f.Params[0]) {
+					bufField = fieldName(fa)
+				}
+			}
+		})
+		if bufField == "" {
+			continue
+		}
+		for _, g := range c.P.AllModuleFuncs() {
+			if g.Pkg != f.Pkg || g == f || g.Signature.Recv() == nil || g.Name() == "Close" {
+				continue
+			}
+			g := g
+			eachInstr(g, func(_ *ssa.BasicBlock, _ int, in ssa.Instruction) {
+				st, ok := in.(*ssa.Store)
+				if !ok {
+					return
+				}
+				fa, ok := st.Addr.(*ssa.FieldAddr)
+				if !ok || fieldName(fa) != bufField || freshBase(fa.X) {
+					return
+				}
+				n9++
+				grows := hasOrigin(Origins(st.Val, FlowOpts{Alias: true}), func(o Origin) bool { return o.Kind == "field" && o.Name == bufField })
+				c.Check(grows, rule, "stream buffer set in "+fname(g), st.Pos(), "appended to what the stream already holds",
+					"the stream's buffer is replaced, not extended — bytes written before this call are dropped and the sealed file holds only the rest (it still authenticates)")
+			})
+		}
 	}
 	return n9
 }
